@@ -31,6 +31,9 @@ def w(path, text):
         f.write(text)
 
 
+BUILTIN_LIKE = ("ConnectionError", "TimeoutError", "Warning", "format", "filter", "hash", "type", "object", "open", "id")
+
+
 def gen_package(r, purelib, name):
     """-> description {"pkg", "modules": {fqn: {"file", "symbols": [..]}}, "leaf_packages": [...]}.
     Layout: <pkg>/__init__.py ; <pkg>/<sub>/__init__.py ; <pkg>/<sub>/<mod>.py (+ optional third level)"""
@@ -45,6 +48,7 @@ def gen_package(r, purelib, name):
                      for s_ in sub_names]
     cap_mods = rc.random() < 0.25
     top_imports, top_all = [], []
+    used_builtin_like = set()
     for sub in sub_names:
         depth3 = r.random() < 0.3
         subpkg = "%s.%s" % (name, sub)
@@ -58,6 +62,13 @@ def gen_package(r, purelib, name):
             body = ["from typing import Optional, Literal, List", ""]
             for _ in range(r.randint(1, 2)):
                 cname = r.choice(["Conf", "Model", "Node", "Edge", "Thing", "Setup"]) + m.title().replace("_", "") + sub.title()
+                rb = __import__("random").Random(r.random())
+                if rb.random() < 0.2:
+                    # a package's own `ConnectionError`, a `format` helper: exported names that are also names of builtins
+                    free = [b for b in BUILTIN_LIKE if b not in used_builtin_like]
+                    if free:
+                        cname = rb.choice(free)
+                        used_builtin_like.add(cname)
                 if cname in syms:
                     continue
                 ir = irgen.rand_ir(r, nparams=r.randint(1, 3), type_kinds=("int", "float", "str", "bool", "optional"),
